@@ -373,6 +373,111 @@ fn run_case(w: &mut Worker, names: &[String], consistent: bool, source: &str) ->
     out
 }
 
+/// Lexical normalisation of a path ('.' and '..' resolved); None if it climbs above the root.
+fn normalise(p: &str) -> Option<String> {
+    let mut out: Vec<&str> = Vec::new();
+    for seg in p.split('/') {
+        match seg {
+            "" | "." => {}
+            ".." => {
+                out.pop()?;
+            }
+            s => out.push(s),
+        }
+    }
+    Some(format!("/{}", out.join("/")))
+}
+
+/// file:// leg: the role's document exists ONLY at the place a percent-decoding or otherwise
+/// path-interpreting client would look (the raw role name taken as a path below the metadata
+/// directory), never as a plain entry of the metadata directory. A client that only opens plain
+/// entries cannot find it, so the load must fail.
+fn run_file_leg(w: &mut Worker, name: &str, consistent: bool) -> CaseOut {
+    let mut out = CaseOut::default();
+    let dir = w.case_dir();
+    let keys = RootKeys::simple();
+    let st = Style::Compact;
+    let base = dir.join("fs/p1/p2/p3");
+    let md = base.join("metadata");
+    let tg = base.join("targets");
+    std::fs::create_dir_all(&md).unwrap();
+    std::fs::create_dir_all(&tg).unwrap();
+    let root1 = render(&sign_with(&root_signed(1, consistent, FAR, &keys), &keys.root.keys), st);
+    let all = Paths::Patterns(vec!["*".into()]);
+    let delegs = delegations(&[5], vec![delegated_role_entry(name, &[5], 1, &all, false)]);
+    let tgd = sign_with_sut_canon(&targets_signed(1, FAR, vec![], Some(delegs)), &keys.targets.keys);
+    let snap = sign_with_sut_canon(
+        &snapshot_signed(1, FAR, vec![("targets.json".into(), metafile(1, None, None)), (format!("{name}.json"), metafile(1, None, None))]),
+        &keys.snapshot.keys,
+    );
+    let ts = sign_with(&timestamp_signed(1, FAR, metafile(1, None, None)), &keys.timestamp.keys);
+    let fname = |role: &str| meta_path(consistent, 1, role).trim_start_matches("/metadata/").to_string();
+    std::fs::write(md.join(fname("root")), &root1).unwrap();
+    std::fs::write(md.join(fname("targets")), render(&tgd, st)).unwrap();
+    std::fs::write(md.join(fname("snapshot")), render(&snap, st)).unwrap();
+    std::fs::write(md.join("timestamp.json"), render(&ts, st)).unwrap();
+    let role_doc = render(&sign_with(&targets_signed(1, FAR, vec![], None), &[5]), st);
+    // decoy locations: the raw name (and its once-percent-decoded form) taken as a path
+    let prefix = if consistent { "1." } else { "" };
+    let plain = format!("{prefix}{}.json", enc_name(name));
+    let mut decoys: Vec<String> = Vec::new();
+    for cand in [name.to_string(), crate::httpd::pct_decode(name)] {
+        let rel = format!("{prefix}{cand}.json");
+        if rel == plain || cand.contains('\0') {
+            continue;
+        }
+        let full = format!("{}/{}", md.to_str().unwrap(), rel);
+        if let Some(n) = normalise(&full) {
+            // stay inside this case's directory, never overwrite the fixed metadata files
+            let inside = n.starts_with(dir.to_str().unwrap());
+            let fixed = [fname("root"), fname("targets"), fname("snapshot"), "timestamp.json".to_string()].iter().any(|f| n == format!("{}/{}", md.to_str().unwrap(), f));
+            if inside && !fixed && n.len() < 3500 && !decoys.contains(&n) {
+                decoys.push(n);
+            }
+        }
+    }
+    let mut placed = 0;
+    for d in &decoys {
+        let p = std::path::Path::new(d);
+        if let Some(parent) = p.parent() {
+            if std::fs::create_dir_all(parent).is_ok() && !p.is_dir() && std::fs::write(p, &role_doc).is_ok() {
+                placed += 1;
+            }
+        }
+    }
+    // the plain entry must not exist (a decoy may coincide with it for inert names: then skip)
+    let plain_exists = md.join(&plain).exists();
+    let ds = dir.join("ds");
+    std::fs::create_dir_all(&ds).unwrap();
+    let wd = client::watchdog(w.cfg.tier);
+    let res = w.rt.block_on(crate::props::c19::load_dir(&root1, &md, &tg, &ds, wd));
+    out.evals = 1;
+    if placed == 0 || plain_exists {
+        out.h("file-leg:no-distinct-decoy-location");
+    } else {
+        out.h("file-leg:decoy-placed");
+        match &res {
+            Ok(repo) => {
+                if repo.delegated_role(name).map_or(false, |r| r.targets.is_some()) {
+                    out.viol(
+                        "not-plain-entry:place=file-transport",
+                        format!("role {name:?}: no plain entry {plain:?} exists in the metadata directory, yet the role was loaded — from one of {decoys:?}"),
+                    );
+                }
+            }
+            Err(e) if e == "watchdog" => out.inconc("watchdog"),
+            Err(_) => {}
+        }
+    }
+    out.h(if consistent { "consistent=true" } else { "consistent=false" });
+    out.fingerprint = Some(format!("file|{name}|{consistent}"));
+    out.nontrivial = placed > 0;
+    out.desc = Some(obj! {"kind" => "file:// leg", "role_name" => name, "plain_entry_expected" => plain.as_str(), "decoys_placed_at" => J::A(decoys.iter().map(|d| J::S(d.clone())).collect()),
+        "consistent_snapshot" => consistent, "load" => match &res { Ok(_) => "ok".to_string(), Err(e) => e.clone() }});
+    w.cleanup(&dir);
+    out
+}
+
 pub fn run(cfg: &Cfg) -> i32 {
     let start = Instant::now();
     let _ = crate::keys::pool();
@@ -405,9 +510,23 @@ pub fn run(cfg: &Cfg) -> i32 {
         }
         groups.push((names, r.bool(), "random<=64"));
     }
+    // file:// leg: one role per repository
+    let mut file_names: Vec<(String, bool)> = Vec::new();
+    for (i, n) in ex.iter().chain(sp.iter()).enumerate() {
+        file_names.push((n.clone(), i % 2 == 0));
+    }
+    for g in 0..cfg.tier.pick(300u64, 5000) {
+        let mut r = Rng::for_case(cfg.seed, "C16-file", g);
+        file_names.push((random_name(&mut r), r.bool()));
+    }
     let budget = cfg.tier.pick(Duration::from_secs(400), Duration::from_secs(2400));
-    let mut ev = par_run(cfg, groups.len() as u64, budget, |w, i| {
-        groups.get(i as usize).map(|(names, c, src)| run_case(w, names, *c, src))
+    let ng = groups.len() as u64;
+    let mut ev = par_run(cfg, ng + file_names.len() as u64, budget, |w, i| {
+        if i < ng {
+            groups.get(i as usize).map(|(names, c, src)| run_case(w, names, *c, src))
+        } else {
+            file_names.get((i - ng) as usize).map(|(n, c)| run_file_leg(w, n, *c))
+        }
     });
     let total_names: usize = groups.iter().map(|g| g.0.len()).sum();
     ev.extra.push(("role_names_exercised".into(), J::U(total_names as u64)));
@@ -422,6 +541,7 @@ pub fn run(cfg: &Cfg) -> i32 {
         "load=ok".into(),
         "cache=ok".into(),
         "editor=ok".into(),
+        "file-leg:decoy-placed".into(),
         "consistent=true".into(),
         "consistent=false".into(),
     ];
